@@ -223,8 +223,8 @@ def r13_3c_everywhere(facts, res):
                 res.add(Finding("R13-3c", f["path"], "%s decides `wrong document` with %s, i.e. by comparing the *content* of the two owner "
                                 "documents: a node of another document with equal content passes the test"
                                 % (f["path"], facts.callee_name(t["callee"])), f["file"], t.get("ln"), {}))
-    if st_c["instances"] < 10:
-        raise BrokenCheck("R13-3c: %d owner-document tests (floor 10)" % st_c["instances"])
+    if st_c["instances"] < 6:
+        raise BrokenCheck("R13-3c: %d owner-document tests (floor 6)" % st_c["instances"])
 
 
 def owner_document_tests(facts, f):
